@@ -70,6 +70,11 @@ func GenG(t *rapid.T, o Opts) *G {
 	if o.MaxRul == 0 {
 		o.MaxRul = 5
 	}
+	if ri(t, 0, 19, "big") == 0 {
+		// now and then a large grammar: more tokens, more rules, more states (table rows beyond
+		// one-byte offsets and varint boundaries); guarded so that it stays conflict-free more often
+		o.MaxTok, o.MaxRul, o.Guarded = 12, 14, true
+	}
 	nT := ri(t, 2, o.MaxTok, "nT")
 	nR := ri(t, 1, o.MaxRul, "nR")
 	g := &G{}
@@ -154,7 +159,7 @@ func GenG(t *rapid.T, o Opts) *G {
 		connect(t, g, o.Guarded)
 	}
 	if o.Styles {
-		g.Style = ri(t, 0, 15, "style")
+		g.Style = ri(t, 0, 31, "style")
 	}
 	return g
 }
